@@ -51,25 +51,30 @@ Definition take_upto (n : N) (l : bytes) : bytes * bytes :=
     all that is left when the input is shorter (no error); it is unpacked
     from a zero-filled temporary buffer when less than miniBlockSize+padding
     bytes are available, so missing bytes read as zeros ([of_le] of the bytes
-    present).  Zero-width mini-blocks leave the zeros of the freshly resized
+    present); [bitpack.Unpack] of [n] values is evaluated 8 values at a time
+    ([GoDecBase.go_unpack_chunks]; the mini-block holds [vpm/8] groups, the
+    first [n] values are kept: a value does not depend on those after it).  Zero-width mini-blocks leave the zeros of the freshly resized
     destination.  Returns the unpacked values of the block (before the prefix
-    sums), the remaining input and the remaining count. *)
+    sums), the remaining input, the remaining count and (for the differential
+    runs only: the assembly kernels are not modelled for widths above the
+    width of the type) the largest bit width used. *)
 Fixpoint go_dbp_miniblocks (tw vpm : N) (ws : list N) (src : bytes) (remaining : N)
-  : list N * bytes * N :=
+  : list N * bytes * N * N :=
   match ws with
-  | [] => ([], src, remaining)
+  | [] => ([], src, remaining, 0)
   | w :: ws' =>
       let n := N.min vpm remaining in
       let '(vals, src') :=
         if w =? 0 then (repeat 0 (N.to_nat n), src)
         else
           let size := N.to_nat (vpm * w / 8) in
-          (go_unpack tw w (N.to_nat n) (of_le (firstn size src)), skipn size src) in
+          (firstn (N.to_nat n) (go_unpack_chunks tw w (N.to_nat (vpm / 8)) (firstn size src)),
+           skipn size src) in
       let remaining' := remaining - n in
-      if remaining' =? 0 then (vals, src', remaining')        (* break *)
+      if remaining' =? 0 then (vals, src', remaining', w)      (* break *)
       else
-        let '(vs, s, r) := go_dbp_miniblocks tw vpm ws' src' remaining' in
-        (vals ++ vs, s, r)
+        let '(vs, s, r, wm) := go_dbp_miniblocks tw vpm ws' src' remaining' in
+        (vals ++ vs, s, r, N.max w wm)
   end.
 
 (** [for totalValues > 0 && len(src) > 0]: block header (min delta as a
@@ -78,35 +83,38 @@ Fixpoint go_dbp_miniblocks (tw vpm : N) (ws : list N) (src : bytes) (remaining :
     wrap-around = [DeltaBP.recon].  [int32(minDelta)] truncates = [wrapZ k].
     After the loop: [if totalValues > 0] error "missing values". *)
 Fixpoint go_dbp_blocks (fuel : nat) (k vpm nmb : N) (src : bytes) (remaining last : N)
-  : gres (list N * bytes) :=
+  : gres (list N * bytes * N) :=
   match fuel with
-  | O => if remaining =? 0 then GOk ([], src) else GErr       (* len(src) = 0 here *)
+  | O => if remaining =? 0 then GOk ([], src, 0) else GErr    (* len(src) = 0 here *)
   | S f =>
       if (remaining =? 0) || (length src =? 0)%nat then
-        if remaining =? 0 then GOk ([], src) else GErr
+        if remaining =? 0 then GOk ([], src, 0) else GErr
       else
         match go_varint src with
         | None => GErr
         | Some (md, s1) =>
             let '(ws, s2) := take_upto nmb s1 in
-            let '(us, s3, rem') := go_dbp_miniblocks k vpm ws s2 remaining in
+            let '(us, s3, rem', wm) := go_dbp_miniblocks k vpm ws s2 remaining in
             let '(xs, last') := recon k last (wrapZ k md) us in
             gbind (go_dbp_blocks f k vpm nmb s3 rem' last')
-                  (fun '(ys, rest) => GOk (xs ++ ys, rest))
+                  (fun '(ys, rest, wm') => GOk (xs ++ ys, rest, N.max wm wm'))
         end
   end.
 
-(** decodeInt32 ([k] = 32) / decodeInt64 ([k] = 64): decoded values and the
-    input left after the section *)
-Definition go_dbp_dec (k : N) (src : bytes) : gres (list Z * bytes) :=
+(** decodeInt32 ([k] = 32) / decodeInt64 ([k] = 64): decoded values, the
+    input left after the section, the largest bit width used *)
+Definition go_dbp_dec_w (k : N) (src : bytes) : gres (list Z * bytes * N) :=
   gbind (go_dbp_header src) (fun '(bs, nmb, total, first, s) =>
-    if (total =? 0)%Z then GOk ([], s)
+    if (total =? 0)%Z then GOk ([], s, 0)
     else if (k =? 32) && ((first <? - 2 ^ 31) || (2 ^ 31 - 1 <? first))%Z then GErr
     else
       let vpm := Z.to_N (Z.quot bs nmb) in
       let p := wrapZ k first in
       gbind (go_dbp_blocks (length s) k vpm (Z.to_N nmb) s (Z.to_N total - 1) p)
-            (fun '(ps, rest) => GOk (map (sintZ k) (p :: ps), rest))).
+            (fun '(ps, rest, wm) => GOk (map (sintZ k) (p :: ps), rest, wm))).
+
+Definition go_dbp_dec (k : N) (src : bytes) : gres (list Z * bytes) :=
+  gbind (go_dbp_dec_w k src) (fun '(xs, rest, _) => GOk (xs, rest)).
 
 (** BinaryPackedEncoding.DecodeInt32 / DecodeInt64 drop the remaining input *)
 Definition go_dbp_decode (k : N) (src : bytes) : gres (list Z) :=
@@ -151,9 +159,9 @@ Fixpoint unflatten (data : bytes) (offs : list N) : list bytes :=
 (** decodeByteArray / decodeFixedLenByteArray (portable): checks in the Go
     order (suffix negative, suffix beyond the input, prefix negative, prefix
     longer than the previous value) *)
-Fixpoint go_dba_loop (prefix suffix : list Z) (src last : bytes) : gres (list bytes) :=
+Fixpoint go_dba_loop (prefix suffix : list Z) (src last : bytes) : gres (list bytes * bytes) :=
   match suffix with
-  | [] => GOk []
+  | [] => GOk ([], src)
   | n :: suffix' =>
       match prefix with
       | [] => GPanic                                           (* lengths were checked equal *)
@@ -165,18 +173,46 @@ Fixpoint go_dba_loop (prefix suffix : list Z) (src last : bytes) : gres (list by
           else
             let v := firstn (Z.to_nat p) last ++ firstn (Z.to_nat n) src in
             gbind (go_dba_loop prefix' suffix' (skipn (Z.to_nat n) src) v)
-                  (fun vs => GOk (v :: vs))
+                  (fun '(vs, rest) => GOk (v :: vs, rest))
       end
   end.
 
 (** ByteArrayEncoding.DecodeByteArray (the values; the offsets returned by Go
     are the cumulated lengths) and DecodeFixedLenByteArray (their
-    concatenation; the size argument is not checked against the lengths) *)
-Definition go_dba_dec (src : bytes) : gres (list bytes) :=
+    concatenation; the size argument is not checked against the lengths);
+    with the input that follows the last suffix (ignored by the portable code) *)
+Definition go_dba_dec_rest (src : bytes) : gres (list bytes * bytes) :=
   gbind (go_dbp_dec 32 src) (fun '(ps, s1) =>
   gbind (go_dbp_dec 32 s1) (fun '(ss, s2) =>
     if negb (length ps =? length ss)%nat then GErr
     else go_dba_loop ps ss s2 [])).
+
+Definition go_dba_dec (src : bytes) : gres (list bytes) :=
+  gbind (go_dba_dec_rest src) (fun '(vs, _) => GOk vs).
+
+(** for the differential runs on builds with assembly kernels, which are not
+    modelled in two situations that only malformed input reaches: 1 = a
+    mini-block bit width above the width of the type in one of the first
+    [sections] DELTA_BINARY_PACKED sections; 2 = input left after the last
+    suffix of a DELTA_BYTE_ARRAY section; 0 = neither *)
+Fixpoint dbp_sections_wide (sections : nat) (k : N) (src : bytes) : bool :=
+  match sections with
+  | O => false
+  | S m =>
+      match go_dbp_dec_w k src with
+      | GOk (_, rest, wm) => (k <? wm) || dbp_sections_wide m k rest
+      | _ => false
+      end
+  end.
+
+Definition go_delta_quirk (sections : nat) (k : N) (src : bytes) : N :=
+  if dbp_sections_wide sections k src then 1
+  else if (sections =? 2)%nat then
+    match go_dba_dec_rest src with
+    | GOk (_, _ :: _) => 2
+    | _ => 0
+    end
+  else 0.
 
 (** * What a decoder would allocate (see GoDecRle.rle_cost): the largest of
     block size, mini-block count and total count announced by a header *)
@@ -201,14 +237,18 @@ Fixpoint dbp_sections_cost (sections : nat) (limit : N) (src : bytes) : N :=
   | O => 0
   | S m =>
       let c := N.max (dbp_cost true src) (dbp_cost false src) in
-      if limit <? c then c
-      else
-        match go_dbp_dec 32 src with
-        | GOk (_, rest) => N.max c (dbp_sections_cost m limit rest)
-        | _ =>
-            match DeltaBP.dec 32 src with
-            | Some (_, rest) => N.max c (dbp_sections_cost m limit rest)
-            | None => c
+      match m with
+      | O => c
+      | _ =>
+          if limit <? c then c
+          else
+            match go_dbp_dec 32 src with
+            | GOk (_, rest) => N.max c (dbp_sections_cost m limit rest)
+            | _ =>
+                match DeltaBP.dec 32 src with
+                | Some (_, rest) => N.max c (dbp_sections_cost m limit rest)
+                | None => c
+                end
             end
-        end
+      end
   end.
